@@ -8,6 +8,7 @@
 # The scratch worktree is removed afterwards.  /repo itself is never modified.
 set -u
 export GOFLAGS=-mod=mod GOPROXY=off GOSUMDB=off GOTOOLCHAIN=local
+VERIF_HOME=$(cd "$(dirname "$0")/.." && pwd)
 SEED=$(cd "$1" && pwd); shift
 PROP=$(python3 -c "import json,sys;print(json.load(open('$SEED/meta.json'))['property'])" 2>/dev/null || echo "")
 CHECKS="$*"; [ -z "$CHECKS" ] && CHECKS="$PROP"
@@ -40,7 +41,7 @@ demo; MUT=$?
 echo "SEED $(basename $(dirname $SEED))/$(basename $SEED) property=$PROP demo_without_patch=$BASE(0=pass) suite_with_patch=$SUITE(0=pass) demo_with_patch=$MUT(nonzero=fails)"
 [ $MUT -ne 0 ] && tail -5 /tmp/seedtest-demo.$$ | sed 's/^/    demo: /'
 rm -f /tmp/seedtest-demo.$$ /tmp/seedtest-suite.$$
-cd /verif
+cd "$VERIF_HOME"
 for c in $CHECKS; do
   out=$(VERIF_REPO="$WT" ./check.sh $c quick 2>&1); rc=$?
   sig=$(echo "$out" | grep -m3 "sig=" | tr '\n' ' ')
